@@ -8,3 +8,4 @@ pub mod tok;
 pub mod canary;
 pub mod core_contracts;
 pub mod c01;
+pub mod life;
